@@ -124,6 +124,9 @@ def parse_tlc_output(out, res):
         res.violated = m2.group(1)
     if "Error: Temporal properties were violated." in out:
         res.violated = res.violated or "TemporalProperty"
+    m3 = re.search(r"Error: Temporal property (\S+) was violated", out)
+    if m3:
+        res.violated = res.violated or m3.group(1)
     m3 = re.search(r"^Error: (.*)$", out, re.M)
     if m3:
         res.error = m3.group(1)
